@@ -10,6 +10,7 @@ def strOfHex (h : String) : String := String.ofList ((hexBytes h).map fun b => C
 
 def parseOne (x : String) : Option RMsg :=
   match x.splitOn "," with
+  | [e, r, t, a, c, tx, ls, cq] => some { index := 0, ecu := nat! e, recv := nat! r, tsDms := nat! t, apid := a, ctid := c, text := strOfHex tx, lcStart := nat! ls, ctrl := cq == "1" }
   | [e, r, t, a, c, tx, ls] => some { index := 0, ecu := nat! e, recv := nat! r, tsDms := nat! t, apid := a, ctid := c, text := strOfHex tx, lcStart := nat! ls }
   | [e, r, t, a, c, tx] => some { index := 0, ecu := nat! e, recv := nat! r, tsDms := nat! t, apid := a, ctid := c, text := strOfHex tx }
   | _ => none
